@@ -208,6 +208,7 @@ def _run(res, rng, tier, driver, work):
     projs_empty["emptyNet"] = "-"
     families = [("chain", states, projs, CFGS), ("empty-old", empty_old, projs_empty, ["goodBak", "goodBoth"])]
     for variant, states, projs, cfg_list in families:
+        FAMILY[0] = variant
         for fmt in pu.FORMATS:
             enc = {n: pu.save_bytes(states[n], work, fmt) for n in ("stale", "old", "new")}
             stale_variants = {"w": enc["stale"], "d": enc["stale"][: len(enc["stale"]) // 3]}
@@ -402,6 +403,15 @@ MODEL_NAMES = {True: ["openTmp", "write", "flush", "fsync", "close", "renMainBak
                False: ["openTmp", "write", "flush", "fsync", "close", "renTmpMain", "end"]}
 
 
+FAMILY = ["chain"]
+
+
+def family_states(states, name):
+    if name == "empty-old":
+        return {"stale": states["new"], "old": {}, "new": states["stale"], "next": states["old"]}
+    return states
+
+
 def record(res, cases, fmt, cfg, sb, st, mode, at, done, how, cls, nxt, exists, k):
     res.evaluations += 1
     opname = MODEL_NAMES[exists][min(k, len(MODEL_NAMES[exists]) - 1)]
@@ -410,7 +420,7 @@ def record(res, cases, fmt, cfg, sb, st, mode, at, done, how, cls, nxt, exists, 
     if k >= 1:
         res.distinct.add(digest([fmt, cfg, sb, st, mode, at, how]))
     allowed = {"new"} | ({"old"} if cfg != "none" else {"emptyNet"})
-    case = {"fmt": fmt, "cfg": cfg, "staleBak": sb, "staleTmp": st, "mode": mode, "real_op_index": at,
+    case = {"family": FAMILY[0], "fmt": fmt, "cfg": cfg, "staleBak": sb, "staleTmp": st, "mode": mode, "real_op_index": at,
             "before_model_op": opname, "loss": how, "loaded": cls, "next": nxt}
     cases.append(case)
     if cls not in allowed:
@@ -434,7 +444,9 @@ def replay(payload):
     work = tempfile.mkdtemp(prefix="verif-c12-")
     try:
         states, script = build_states(rng)
-        projs = {n: pu.project(s) for n, s in states.items()}
+        states = family_states(states, r.get("family", "chain"))
+        projs = {"old": pu.project(states["old"])}
+        projs.update({n: pu.project(s) for n, s in states.items() if n != "old"})
         projs["emptyNet"] = "-"
         fmt = r["fmt"]
         enc = {n: pu.save_bytes(states[n], work, fmt) for n in ("stale", "old", "new")}
